@@ -330,9 +330,20 @@ def ra_check(pid, tier, replay, want, extra_docs, rule, assumptions):
     t0 = time.time()
     tmp = vf.mktmp("vf-%s-" % pid)
     rng = random.Random(vf.seed() * 9176 + int(pid[1:]))
+    mcs = []
     if replay:
         vecs = json.load(open(replay))["vectors"]
     else:
+        if extra_docs:
+            # specification-level theorem: Accept(doc) => Encodable(BuildRA(Elab(doc), sys)) etc. (ConfigMC)
+            cfgp = os.path.join(tmp, "ConfigMC.cfg")
+            open(cfgp, "w").write("SPECIFICATION MSpec\nINVARIANTS Theorem\nCHECK_DEADLOCK FALSE\n")
+            r = vf.tlc("ConfigMC", cfgp, workdir=vf.mktmp("vf-cmc-"), timeout=1500, heap="8g")
+            mcs.append({"config": "ConfigMC: Accept => Encodable(BuildRA(Elab)) over boundary documents x system states",
+                        "states": r["states"], "transitions": r["generated"], "ok": r["ok"], "violation": r["violation"],
+                        "wall_s": round(r["wall_s"], 1)})
+            if not r["ok"]:
+                print("MODEL-COUNTEREXAMPLE property=%s ConfigMC %s (not a verdict)" % (pid, r["violation"]))
         vecs = ra_docs(tier, rng)
         if extra_docs:
             default_sys = sys_states(random.Random(5), 8)
@@ -353,7 +364,8 @@ def ra_check(pid, tier, replay, want, extra_docs, rule, assumptions):
         print("NOTE other-property clause=%s document=%s" % (v["viol"], v["id"]))
     nacc = sum(1 for r in rows if r.get("out", {}).get("accepted"))
     nras = sum(len(r["out"].get("ras", [])) for r in rows if r.get("out", {}).get("accepted"))
-    cov = {"states": len(rows) + 1, "transitions": len(rows), "traces_validated_against_impl": nras,
+    cov = {"states": sum(m["states"] for m in mcs) + len(rows) + 1, "transitions": sum(m["transitions"] for m in mcs) + len(rows),
+           "model_checking_runs": mcs, "traces_validated_against_impl": nras,
            "samples": [{"id": vecs[0]["id"], "toml": vecs[0]["toml"][:500], "sys": vecs[0]["sys"]}, rows[0]["out"]["ras"][:1] if rows and rows[0]["out"].get("ras") else {}],
            "evaluations": len(vecs), "distinct_nontrivial": len({(v["toml"], json.dumps(v["sys"], sort_keys=True)) for v in vecs if "[[interfaces." in v["toml"]}),
            "accepted_documents": nacc, "ras_built_and_judged": nras, "rule": rule, "violating": shown, "exhaustive": False}
